@@ -458,8 +458,10 @@ def list_method(self, target_node, lst, m, e, st, spec):
     args = [self.ev(a, st, spec) for a in e.args]
     if m == "append":
         v = args[0]
-        if not V.same_shape(lst.elems.template, v) and V.comps(lst.elems.template):
+        if V.comps(lst.elems.template):
             v = self.coerce_elem(lst.elems.template, v)
+        if len(V.comps(v)) != len(V.comps(lst.elems.template)):
+            raise EngineError(f"append of {v!r} to a list of {lst.elems.template!r}")
         self.assign(target_node, lst.append(v), st, e)
         return NONE
     if m == "pop":
@@ -483,6 +485,10 @@ def coerce_elem(self, template, v):
         return Opt(z3.BoolVal(False), coerce_elem(self, template.val, v))
     if isinstance(template, Tup) and isinstance(v, Tup) and len(template.items) == len(v.items):
         return Tup([coerce_elem(self, t, x) for t, x in zip(template.items, v.items)])
+    if isinstance(template, Rec) and isinstance(v, Rec) and set(template.fields) == set(v.fields):
+        return Rec(v.cls, {k: coerce_elem(self, template.fields[k], v.fields[k]) for k in template.fields})
+    if isinstance(template, Opt) and isinstance(v, Opt) and isinstance(v.val, NoneV):
+        return Opt(v.isnone, V.fresh_like(template.val, "none"))
     if is_z3(template) and is_z3(v) and template.sort() == R and v.sort() == I:
         return z3.ToReal(v)
     return v
@@ -801,6 +807,13 @@ def spec_call(self, name, e, st):
     if name == "same_obj":
         a, b = [self.ev(x, st, True) for x in e.args]
         return z3.BoolVal(isinstance(a, Ref) and isinstance(b, Ref) and a.oid == b.oid)
+    if name == "raw":
+        v = self.ev(e.args[0], st, True)
+        if isinstance(v, Opt):
+            v = v.val
+        if isinstance(v, Arr):
+            return v.data
+        return v
     if name == "isnone":
         v = self.ev(e.args[0], st, True)
         if isinstance(v, NoneV):
@@ -1228,6 +1241,10 @@ def apply_binds(self, callee, sub, cst, st):
     for path, text in callee.binds.items():
         obj, fld = field_path(self, path, cst.env, st.heap)
         val = sub.spec(Clause(text), cst)
+        root_t = callee.params.get(path.split(".")[0])
+        ft = getattr(root_t, "fields", {}).get(fld) if len(path.split(".")) == 2 else None
+        if ft is not None:
+            val = coerce_arg(self, ft, val, st)
         if isinstance(obj, Ref):
             st.heap[obj.oid][fld] = val
         elif isinstance(obj, Rec):
@@ -1266,3 +1283,28 @@ def list_eq(a, b):
 
 
 Engine.at_return = at_return
+
+
+def rec_setattr(self, base, attr, v, st, node):
+    """attribute store on a record by value: through the class's property setter when there is one"""
+    q = self.method_contract(base.cls, attr + "@setter")
+    if q is not None:
+        self.call_contract(q, node, st, recv=base, argvals=[v])
+        return self.last_new_self
+    if attr not in base.fields:
+        raise EngineError(f"store to unknown attribute {base.cls}.{attr}")
+    return base.with_field(attr, v)
+
+
+Engine.rec_setattr = rec_setattr
+
+
+def rec_attr_model(self, e, base, st, spec):
+    if isinstance(base, Rec) and e.attr not in base.fields and not spec:
+        q = self.method_contract(base.cls, e.attr)
+        if q is not None and self.registry[q].is_property:
+            return self.call_contract(q, e, st, recv=base, argvals=[])
+    return NotImplemented
+
+
+Engine.ATTR_MODELS.append(rec_attr_model)
